@@ -15,9 +15,10 @@ import model_diagnostics._config as cfgmod
 
 from common import write_case_file, shard
 
-VALS = {"none": None, "mpl": "matplotlib", "plotly": "plotly", "inv1": "XXX", "inv2": "Matplotlib", "inv3": 1}
+VALS = {"none": None, "mpl": "matplotlib", "plotly": "plotly", "inv1": "XXX", "inv2": "Matplotlib", "inv3": 1,
+        "inv4": "", "inv5": 0, "inv6": False}
 COQ_ARG = {"none": "ANone", "mpl": "(AVal Matplotlib)", "plotly": "(AVal Plotly)", "inv1": "AInvalid",
-           "inv2": "AInvalid", "inv3": "AInvalid"}
+           "inv2": "AInvalid", "inv3": "AInvalid", "inv4": "AInvalid", "inv5": "AInvalid", "inv6": "AInvalid"}
 COQ_B = {"matplotlib": "Matplotlib", "plotly": "Plotly"}
 
 
@@ -108,7 +109,7 @@ def gen_prog(rng, budget, depth):
 
 def all_progs(n):
     """all programs with exactly n operations over a reduced alphabet (exhaustive tier)"""
-    vals = ["none", "mpl", "plotly", "inv1"]
+    vals = ["none", "mpl", "plotly", "inv1", "inv4"]
     if n == 0:
         yield []
         return
